@@ -38,6 +38,11 @@ def cases_for(ctx):
     cases.append({'behaviours': [E, 'exit', 'late', E], 'recycle': 2, 'consume': ['close', 3]})
     cases.append({'behaviours': [E, 'late', E], 'recycle': 1, 'consume': ['drop', 2]})
     cases.append({'behaviours': [E], 'recycle': 1, 'consume': 'full'})
+    # a fault exactly on a worker's last allowed replay (recycle boundary), followed by more replays than the rate
+    cases.append({'behaviours': [E, E, 'exit', E, E, E, E, E], 'recycle': 3, 'consume': 'full'})
+    cases.append({'behaviours': [E, 'hang', E, E, E, E], 'recycle': 2, 'consume': 'full'})
+    # a hung worker whose replayed code installed a SIGTERM handler must still be gone afterwards
+    cases.append({'behaviours': [E, 'hang_sigterm_ignored', E], 'recycle': 3, 'consume': 'full'})
     if ctx.quick:
         return cases
     rng = ctx.rng
@@ -52,7 +57,7 @@ def cases_for(ctx):
     for i in range(60):
         n = rng.randrange(1, 13)
         seq = [rng.choice([E, E, E, D] + H.FATAL) for _ in range(n)]
-        if sum(1 for b in seq if b in ('hang', 'late')) > 3:
+        if sum(1 for b in seq if b in ('hang', 'late', 'hang_sigterm_ignored')) > 3:
             continue
         k = rng.randrange(1, n + 1)
         cases.append({'behaviours': seq, 'recycle': rng.choice([1, 2, 3]), 'consume': rng.choice(['full', 'full', ['close', k], ['raise', k], ['drop', k]])})
@@ -78,7 +83,7 @@ def judge(ctx, case, res, w):
             problems.append(('comparison %d (%s) took %.1f s, timeout is %.1f s' % (i, beh[i], dt, TIMEOUT), {'timing': True}))
     # failures are reported as failures (termination with the right verdict for hang/exit)
     for i, r in enumerate(res['results']):
-        if beh[i] in ('hang', 'exit') and r['status'] != 'EqualizerFailure':
+        if beh[i] in ('hang', 'exit', 'hang_sigterm_ignored') and r['status'] != 'EqualizerFailure':
             problems.append(('a %s worker was not reported as a failure (%s)' % (beh[i], r['status']), {}))
     # recycle rate: no worker serves more replays than the configured rate
     per_pid = {}
